@@ -52,6 +52,11 @@ CHECKS = {
    text="Run-length codecs and lazy index-map views are index arithmetic whose defects (off-by-one at a dtype maximum, wrong permutation, missing leading zero run) are input-shape features that all occur for sequences of length <=10, <=3 runs around 127/255/511, and arrays of <=8 cells with every flip / transpose / reshape; each is enumerated completely and compared with numpy on the dense array. One defect gives one key: a failing read of a view is reported only if the wrapped encoding answers the same read correctly.",
    note="Known findings (get_value on lazy views, mask on sparse/flipped/transposed, sparse indices of flat run-length views) are listed in known_findings.json. `gather` and run-length data are only demanded where documented (1D / flat / boolean).",
    design="3.C13"),
+ "C10": dict(level="model_checking", engine="E1",
+   technique="exhaustive enumeration of action histories (depth 2, with and without cache-filling reads) on real Scene objects against a placement-list reference model",
+   text="A scene is described by my own forest and geometry arrays; the reference is the explicit list of (node, geometry, world matrix) placements. For every scene of the family (chain / instanced templates x edge transforms incl. uniform scale, mixed kinds, empty frame, unreferenced geometry) every history of <=2 actions (copy, uniform / per-axis scaled, rezero, apply_transform, convert_units, + , append_scenes of 3, subscene, edge update, shared-geometry edits, add / delete geometry) is executed with and without reading every quantity first, and bounds, extents, centroid, area, volume, triangles, dump, to_mesh and convex hull are compared with the placement list; actions returning a new scene must leave the source unchanged.",
+   note="Second actions after name-changing first actions are restricted to placement-level actions (the model does not track library-generated names). Similarity node transforms only.",
+   design="3.C10"),
 }
 
 NA = {}
